@@ -27,6 +27,7 @@ sys.path.insert(0, os.path.join(ROOT, 'tools'))
 from props import PROPS, TRUSTED_BASE          # noqa: E402
 from protocol import pretty                    # noqa: E402
 
+RUN_TIMEOUT = [300]
 ENV = dict(os.environ, CARGO_NET_OFFLINE='true', GOPROXY='off', PIP_NO_INDEX='1')
 
 
@@ -120,7 +121,7 @@ def one_run(idx, pid, spec_run, seed):
     args = [HARNESS_EXE, spec_run['suite']] + spec_run['args'] + ['--seed', str(seed + 7919 * idx)]
     t0 = time.time()
     try:
-        p = subprocess.run(args, env=ENV, stdout=subprocess.PIPE, stderr=subprocess.PIPE, timeout=spec_run.get('timeout', 1800))
+        p = subprocess.run(args, env=ENV, stdout=subprocess.PIPE, stderr=subprocess.PIPE, timeout=spec_run.get('timeout', RUN_TIMEOUT[0]))
         hout = p.stdout.decode('utf-8', 'replace'); rc = p.returncode; herr = p.stderr.decode('utf-8', 'replace')
     except subprocess.TimeoutExpired as e:
         hout = (e.stdout or b'').decode('utf-8', 'replace'); rc = -999; herr = 'timeout'
@@ -139,7 +140,8 @@ def one_run(idx, pid, spec_run, seed):
     aborted = None
     if not done:
         pending = [c for c in cases if c not in impl]
-        aborted = {'case_id': pending[-1] if pending else None, 'rc': rc, 'stderr': herr[-300:]}
+        last = sorted(cases, key=int)[-1] if cases else None
+        aborted = {'case_id': pending[-1] if pending else last, 'rc': rc, 'stderr': herr[-300:]}
     minp = ''.join('CASE %s %s\n' % (c, cases[c]) for c in cases if c in impl)
     mp = subprocess.run([MODEL_EXE], env=ENV, input=minp.encode(), stdout=subprocess.PIPE, stderr=subprocess.PIPE, timeout=3600)
     model = {}
@@ -185,6 +187,7 @@ def write_replay(pid, kind, payload):
 def check(pid, tier, seed):
     t0 = time.time()
     spec = PROPS[pid]
+    RUN_TIMEOUT[0] = 300 if tier == 'quick' else 3600
     findings = load_findings()
     obligations, discharged, problems, checker_cmd = proof_stage(pid, spec, tier)
     herr = build_harness()
